@@ -64,6 +64,24 @@ CLAIMED = {
          'interval test at precision 1 and 4.',
          'Trusted: Lean kernel, standard axioms, Mathlib real analysis, fracexec + stub table. Dew-point *accuracy* of the '
          'empirical correlation and output rounding are measured, not proved.', 'DESIGN.md section 4 C09'),
+ 'C12': ('Lean 4 theorems over the reals about two symbol-generic models (solar position as coded, and the NOAA algorithm '
+         'with EPW conventions), tied to the real solarangles by exact rational execution; known-finding logic',
+         'Proof of what is true: the spherical zenith formula for both models, the exact relation between the coded and the NOAA '
+         'hour angle / fractional year, a machine-checked counterexample to the full property for the code as it stands, and a '
+         'lower bound of 21 degrees on the hour-angle error at the Singapore header for every instant. The property is FALSE of '
+         'the code (known finding, pinned by tests); the check passes only while the real routine equals the as-coded model '
+         'exactly (KNOWN-FINDING) or the NOAA model (repaired), and reports any other deviation as a violation.',
+         'Trusted: Lean kernel, standard axioms, Mathlib trigonometry, fracexec + stub table; the NOAA specification I wrote. '
+         'Agreement with the radiation columns of data files is measured, not proved.', 'DESIGN.md section 4 C12'),
+ 'C13': ('Lean 4 theorems over every ordered field (and over the reals for sqrt/trig facts) about a symbol-generic model of '
+         'UCMDef geometry, solarcalcs and infracalcs, tied by exact rational execution; known-finding logic for the reflection closure',
+         'Proof: view-factor reciprocity/closure/bounds, beam budget and exact split identity, non-negative received radiation, '
+         'no-sun zero, long-wave antisymmetry and equilibrium; for the coded reflection closure the exact characterisation '
+         'absorbed<=entering iff cR<=1, a rational witness that it creates energy (known finding, pinned by a test), and energy '
+         'balance for the radiosity fixed point. The check passes while the real solarcalcs equals the as-coded model exactly and '
+         'every energy-creating input is explained by cR>1; anything else is a violation.',
+         'Trusted: Lean kernel, standard axioms, fracexec + stub table (true rational roots supplied for Pythagorean aspects); '
+         'the radiosity specification.', 'DESIGN.md section 4 C13'),
 }
 NOT_YET = 'check not built yet in this session (work in progress; see DESIGN.md section 4)'
 
